@@ -207,6 +207,11 @@ K["assign_2d_range_range_ub"] = dict(
             "proof { lemma_cnt_lt(ix2.d@, ix2.d@.len() as int); }")],
     post_proof="proof { lemma_cnt_lt(ix2.d@, ix2.d@.len() as int); }")
 
+# loop variable names the contracts above were written with (by loop ordinal); see vmat.mode_fn
+LOOPVARS = {'assign_1d_scalar': [], 'set_1d_range': ['i'], 'set_1d_range_b': ['i'], 'set_1d_range_vec': ['i'], 'set_1d_range_vec_b': ['i'], 'assign_2d_all_scalar': ['i'], 'assign_2d_scalar_all_scalar': ['i'], 'assign_2d_scalar_range': ['i'], 'assign_2d_scalar_range_b': ['cix'], 'assign_2d_all_range_b': ['cix', 'rix'], 'assign_2d_range_all_b': ['cix', 'rix'], 'assign_2d_range_range': ['rix', 'cix'], 'assign_2d_range_range_b': ['r', 'c'], 'assign_2d_range_range_bu': ['r', 'cix'], 'assign_2d_range_range_ub': ['rix', 'c']}
+for _n, _v in LOOPVARS.items():
+    K[_n]["loopvars"] = _v
+
 MODES = {
     "value": "%s (struct %s): with every index valid the kernel returns normally, every addressed element holds the assigned value, every other element and the shape are unchanged (any matrix size)",
     "reject": "%s (struct %s): if the kernel returns normally then every addressed position exists",
@@ -232,3 +237,87 @@ def add_units(plan, prop="C04"):
     plan.assumptions.append("kernels marked mask=False / atomic=False: the dispatch arms of src/core/src/stdlib.rs admit only masks whose length equals the indexed "
                             "dimension (fixed-size shape patterns, `if ix.len() == sink.len()` guards on the dynamic ones) -- read off the arms and confirmed by "
                             "native runs (mismatched masks give UnhandledFunctionArgumentIxes), not proved")
+
+
+# ---------------------------------------------------------------------------------------------------------------------
+# op-assignment kernels (machines/math/src/op_assign/<op>_assign.rs): same shapes, the written value is op(old, source)
+OP_PATH = "machines/math/src/op_assign/%s_assign.rs"
+OPS = ["add", "sub", "mul", "div"]
+
+
+def op_table(op):
+    F = "opf_%s" % op
+    T = {}
+    T["%s_assign_1d_range" % op] = dict(
+        structs="%sAssign1DRS" % op.capitalize(), params=["source", "ix", "sink"], scalars=["source"], sig="source: u64, ix: &IVec, sink: &mut Mat",
+        requires=["old(sink).wf()"], valid="(ix_ok(ix.d@, old(sink).d@.len() as int) && distinct(ix.d@))",
+        addressed="ix_ok(ix.d@, old(sink).d@.len() as int)", mask=False,
+        value=["forall|k: int| 0 <= k < ix.d@.len() ==> final(sink).d@[#[trigger] ix.d@[k] - 1] == %s(old(sink).d@[ix.d@[k] - 1], source)" % F,
+               "forall|p: int| 0 <= p < final(sink).d@.len() && !hit(ix.d@, ix.d@.len() as int, p) ==> #[trigger] final(sink).d@[p] == old(sink).d@[p]"] + SHAPE,
+        loops=["    invariant " + SK + ",\n"
+               "      forall|k: int| 0 <= k < i ==> 1 <= #[trigger] ix.d@[k] <= sink.d@.len(),\n"
+               "      distinct(ix.d@) ==> (forall|k: int| 0 <= k < i ==> sink.d@[#[trigger] ix.d@[k] - 1] == %s(old(sink).d@[ix.d@[k] - 1], source)),\n"
+               "      distinct(ix.d@) ==> (forall|k: int| i <= k < ix.d@.len() && 1 <= #[trigger] ix.d@[k] <= sink.d@.len() ==> sink.d@[ix.d@[k] - 1] == old(sink).d@[ix.d@[k] - 1]),\n"
+               "      forall|p: int| 0 <= p < sink.d@.len() && !hit(ix.d@, i as int, p) ==> #[trigger] sink.d@[p] == old(sink).d@[p]," % F],
+        loopvars=["i"])
+    T["%s_assign_1d_range_b" % op] = dict(
+        structs="%sAssign1DRB" % op.capitalize(), params=["source", "ix", "sink"], scalars=["source"], sig="source: u64, ix: &BVec, sink: &mut Mat",
+        mask=False, atomic=False,   # the dispatch arm rejects a mask of another length (natively: UnhandledFunctionArgumentIxes)
+        requires=["old(sink).wf()"], valid="ix.d@.len() == old(sink).d@.len()",
+        addressed="(forall|p: int| 0 <= p < ix.d@.len() && #[trigger] ix.d@[p] ==> p < old(sink).d@.len())",
+        value=["forall|p: int| 0 <= p < final(sink).d@.len() ==> #[trigger] final(sink).d@[p] == (if ix.d@[p] { %s(old(sink).d@[p], source) } else { old(sink).d@[p] })" % F] + SHAPE,
+        loops=["    invariant " + SK + ",\n"
+               "      forall|p: int| 0 <= p < i && #[trigger] ix.d@[p] ==> p < sink.d@.len(),\n"
+               "      forall|p: int| 0 <= p < sink.d@.len() ==> #[trigger] sink.d@[p] == (if p < i && ix.d@[p] { %s(old(sink).d@[p], source) } else { old(sink).d@[p] })," % F],
+        loopvars=["i"])
+    T["%s_assign_1d_range_vec" % op] = dict(
+        structs="%sAssign1DRV" % op.capitalize(), params=["source", "ix", "sink"], scalars=[], sig="source: &Mat, ix: &IVec, sink: &mut Mat",
+        requires=["old(sink).wf()", "source.wf()"],
+        valid="(ix_ok(ix.d@, old(sink).d@.len() as int) && distinct(ix.d@) && source.d@.len() == ix.d@.len())",
+        addressed="(ix_ok(ix.d@, old(sink).d@.len() as int) && source.d@.len() >= ix.d@.len())", mask=False,
+        value=["forall|k: int| 0 <= k < ix.d@.len() ==> final(sink).d@[#[trigger] ix.d@[k] - 1] == %s(old(sink).d@[ix.d@[k] - 1], source.d@[k])" % F,
+               "forall|p: int| 0 <= p < final(sink).d@.len() && !hit(ix.d@, ix.d@.len() as int, p) ==> #[trigger] final(sink).d@[p] == old(sink).d@[p]"] + SHAPE,
+        loops=["    invariant source.wf(), " + SK + ", i <= source.d@.len(),\n"
+               "      forall|k: int| 0 <= k < i ==> 1 <= #[trigger] ix.d@[k] <= sink.d@.len(),\n"
+               "      distinct(ix.d@) ==> (forall|k: int| 0 <= k < i ==> sink.d@[#[trigger] ix.d@[k] - 1] == %s(old(sink).d@[ix.d@[k] - 1], source.d@[k])),\n"
+               "      distinct(ix.d@) ==> (forall|k: int| i <= k < ix.d@.len() && 1 <= #[trigger] ix.d@[k] <= sink.d@.len() ==> sink.d@[ix.d@[k] - 1] == old(sink).d@[ix.d@[k] - 1]),\n"
+               "      forall|p: int| 0 <= p < sink.d@.len() && !hit(ix.d@, i as int, p) ==> #[trigger] sink.d@[p] == old(sink).d@[p]," % F],
+        loopvars=["i"])
+    T["%s_assign_2d_vector_all_b" % op] = dict(
+        structs="%sAssign2DRASB" % op.capitalize(), params=["source", "ix", "sink"], scalars=["source"], sig="source: u64, ix: &BVec, sink: &mut Mat",
+        mask=False, atomic=False,
+        requires=["old(sink).wf()", "ix.d@.len() >= 1"] + NE, valid="ix.d@.len() == old(sink).r",
+        addressed="(forall|a: int| 0 <= a < ix.d@.len() && #[trigger] ix.d@[a] ==> a < old(sink).r)",
+        value=["forall|a: int, b: int| 0 <= a < old(sink).r && 0 <= b < old(sink).c ==> #[trigger] final(sink).at(a, b) == (if ix.d@[a] { %s(old(sink).at(a, b), source) } else { old(sink).at(a, b) })" % F] + SHAPE,
+        loops=["    invariant " + SK + ", sink.c >= 1,\n"
+               "      cix > 0 ==> (forall|a: int| 0 <= a < ix.d@.len() && #[trigger] ix.d@[a] ==> a < sink.r),\n"
+               "      forall|a: int, b: int| 0 <= a < sink.r && 0 <= b < sink.c ==> #[trigger] sink.at(a, b) == (if b < cix && a < ix.d@.len() && ix.d@[a] { %s(old(sink).at(a, b), source) } else { old(sink).at(a, b) })," % F,
+               "      invariant " + SK + ", sink.c >= 1, cix < sink.c,\n"
+               "        cix > 0 ==> (forall|a: int| 0 <= a < ix.d@.len() && #[trigger] ix.d@[a] ==> a < sink.r),\n"
+               "        forall|a: int| 0 <= a < rix && #[trigger] ix.d@[a] ==> a < sink.r,\n"
+               "        forall|a: int, b: int| 0 <= a < sink.r && 0 <= b < sink.c ==> #[trigger] sink.at(a, b) == (if (b < cix || (b == cix && a < rix)) && a < ix.d@.len() && ix.d@[a] { %s(old(sink).at(a, b), source) } else { old(sink).at(a, b) })," % F],
+        loopvars=["cix", "rix"])
+    return T
+
+
+OP_MODES = {
+    "value": "%s (struct %s): with every index valid and distinct, every addressed element becomes op(old element, source), every other element and the shape are unchanged (any matrix size; the element operation is an uninterpreted total function per operator)",
+    "reject": MODES["reject"], "masklen": MODES["masklen"], "atomic": MODES["atomic"],
+}
+
+
+def op_items(op, names=None):
+    text = vlib.read_repo(OP_PATH % op)
+    items = []
+    for name, k in op_table(op).items():
+        if names and name not in names:
+            continue
+        mt = vlib.extract_macro(text, name)
+        for mode in vmat.modes_of(k, atomic=True):
+            items.append(("%s.%s" % (name, mode), vmat.mode_fn(name, k, mt, mode, out="sink")))
+    return items
+
+
+def add_op_units(plan, prop="C04"):
+    for op in OPS:
+        vmat.add_units(plan, prop, op_table(op), OP_PATH % op, OP_MODES, atomic=True, out="sink")
